@@ -38,6 +38,11 @@ KINDS = (
 ATOMS = ["a", "b", "c", "d", "e"]
 BRUTE_EXIST_LIMIT = 4000  # points of the box used to cross-check a "no parameters exist" verdict
 BRUTE_PARETO_LIMIT = 20000
+_MON = {}  # monitor hit counts of the oracle's branches (per worker; collected per case)
+
+
+def _hit(name):
+    _MON[name] = _MON.get(name, 0) + 1
 
 
 # ---------------------------------------------------------------------------------------------
@@ -294,6 +299,7 @@ def _judge_result(sem, prior, res, gpz, fm, fp):
             b = _brute_exists(sem, prior, gpz, fm, fp)
             if b not in (None, "skipped"):
                 raise RuntimeError(f"c19 oracle: brute force found parameters {b} where the z3 statement has none")
+            _hit("none-correct:" + ("unverifiable-conditional" if any(not sem.ver[i] for i in sem.idx) else ("brute-force-agrees" if b is None else "z3-only")))
         return bad
     if not isinstance(res, dict):
         bad.append(("negative-or-nonint", "dict or None", repr(res)[:200]))
@@ -353,7 +359,9 @@ def _judge_result(sem, prior, res, gpz, fm, fp):
             )
         )
         return bad
+    _hit("accepted-result")
     if gpz and not fm and not fp and all(v >= 0 for v in gm.values()):
+        _hit("pareto-checked" + ("-zero-prior" if not any(prior.values()) else ""))
         dom = _dominating(sem, prior, gm)
         if dom is not None:
             bad.append(
@@ -539,6 +547,7 @@ def _case(args):
     sem = _Sem(sig, triples)
     out = {"evaluations": 0, "fingerprints": [], "violations": [], "rejected": False, "stats": {}}
     st = out["stats"]
+    _MON.clear()
     for gpz, fm, fp in cfgs:
         fm, fp = _fixed_py(fm), _fixed_py(fp)
         vs, what = _check_revision(sig, prior, triples, gpz, fm, fp, sem)
@@ -551,11 +560,14 @@ def _case(args):
         out["violations"].extend(_check_compile(sig, prior, triples, sem))
         out["evaluations"] += 3
         st["compile"] = st.get("compile", 0) + 1
+    for k, v in _MON.items():
+        st["mon:" + k] = st.get("mon:" + k, 0) + v
     return out
 
 
 def _inc_case(args):
     sig, prior, initial, ops, rev = args
+    _MON.clear()
     vs, ev = _check_incremental(sig, prior, initial, ops, rev)
     fps = []
     # distinct non-trivial: the (prior, op sequence semantics)
@@ -570,7 +582,10 @@ def _inc_case(args):
         trail.append(sorted((i, s.ver[i], s.fal[i]) for i in s.idx))
         if s.nontrivial():
             fps.append("inc-" + hashlib.sha1(json.dumps([len(sig), [prior[k] for k in s.keys], trail]).encode()).hexdigest()[:16])
-    return {"evaluations": ev, "fingerprints": fps, "violations": vs, "rejected": False, "stats": {"incremental-steps": len(ops) + 1}}
+    st = {"incremental-steps": len(ops) + 1}
+    for k, v in _MON.items():
+        st["mon:" + k] = v
+    return {"evaluations": ev, "fingerprints": fps, "violations": vs, "rejected": False, "stats": st}
 
 
 def _work(item):
@@ -620,10 +635,17 @@ def _gen_indices(rng, k):
     return rng.sample(range(0, 13), k)
 
 
-def _gen_list(rng, atoms, lens=(1, 1, 2, 2, 2, 3, 3, 4)):
+def _gen_list(rng, atoms, lens=(1, 1, 2, 2, 2, 3, 3, 4), clean=0.0):
+    """with probability `clean` the list is re-drawn (up to 20 times) until every conditional has a verifying and a
+    falsifying world, so that acceptance / Pareto-minimality are exercised and not only the degenerate shapes"""
     k = rng.choice(lens)
     idx = _gen_indices(rng, k)
-    return [[i, *(_gen_cond(rng, atoms))] for i in idx]
+    want_clean = rng.random() < clean
+    for _ in range(20):
+        tr = [[i, *(_gen_cond(rng, atoms))] for i in idx]
+        if not want_clean or not _Sem(atoms, tr).tags():
+            break
+    return tr
 
 
 def _gen_cfgs(rng, idx, full=True):
@@ -671,15 +693,15 @@ def _cases(rng, tier):
     sample2 = all2 if thorough else [all2[0]] + rng.sample(all2[1:], 11)
     for prior in sample2:
         for _ in range(12 if thorough else 7):
-            tr = _gen_list(rng, ["a", "b"])
+            tr = _gen_list(rng, ["a", "b"], clean=0.5)
             cases.append((["a", "b"], prior, tr, _gen_cfgs(rng, [t[0] for t in tr]), True))
     # --- 3..5 atoms: seeded random priors with ranks 0..4 (all-zero prior included)
-    plan = {3: 700, 4: 450, 5: 250} if thorough else {3: 70, 4: 45, 5: 24}
+    plan = {3: 1200, 4: 800, 5: 400} if thorough else {3: 70, 4: 45, 5: 24}
     for n, cnt in plan.items():
         atoms = ATOMS[:n]
         for j in range(cnt):
             prior = {k: 0 for k in _world_keys(n)} if j == 0 else _rnd_prior(rng, n)
-            tr = _gen_list(rng, atoms)
+            tr = _gen_list(rng, atoms, clean=0.6)
             cases.append((atoms, prior, tr, _gen_cfgs(rng, [t[0] for t in tr]), thorough or n < 5 or j % 3 == 0))
     return cases
 
@@ -688,7 +710,7 @@ def _inc_cases(rng, tier):
     thorough = tier == "thorough"
     maxlen = 8 if thorough else 6
     out = []
-    plan = {1: 20, 2: 120, 3: 160, 4: 60} if thorough else {1: 6, 2: 30, 3: 34, 4: 10}
+    plan = {1: 20, 2: 200, 3: 300, 4: 120} if thorough else {1: 6, 2: 30, 3: 34, 4: 10}
     for n, cnt in plan.items():
         atoms = ATOMS[:n]
         for _ in range(cnt):
@@ -780,6 +802,7 @@ def run(tier, seed):
         "c_revision_outcomes": {k: stats.get(k, 0) for k in ("ok", "none", "rejecting", "exc")},
         "compile_comparisons": stats.get("compile", 0),
         "incremental_steps": stats.get("incremental-steps", 0),
+        "oracle_monitors": {k[4:]: v for k, v in sorted(stats.items()) if k.startswith("mon:")},
         "violations_by_class": dict(sorted(by_kind.items())),
     }
     thorough = tier == "thorough"
